@@ -67,6 +67,24 @@ def Covered (hits : List Hit) (tubeWidth n a b : Nat) : Prop :=
 /-- in self-comparison only matches strictly above the main diagonal are required -/
 def required (selfAlign : Bool) (a b : Nat) : Bool := !selfAlign || decide (a < b)
 
+/-- what is required of one strand of a comparison, as `pals.go` drives the filter
+    (`Filter(working, selfCompare, complement, …)`, `working` = the reverse complement of the query on
+    the complement strand).  Forward strand: `required`.  Complement strand of a self comparison
+    (`q = revcomp t`, `Tlen = Qlen = L`): the window pair `(a, b)` is the pair of regions
+    `X = [a, a+n)`, `Y = [L-b-n, L-b)` of the one sequence (X read forward against Y read as its
+    reverse complement), and the same pair of regions appears a second time, mirrored about the
+    anti-diagonal, as `(L-b-n, L-a-n)`.  The filter cuts every k-mer below the anti-diagonal
+    (`q < Tlen - t`); the matches none of whose k-mers is cut are those with `Tlen ≤ a + b`, and of
+    the two images of a pair of *disjoint* regions exactly one satisfies it (`a + b ≥ L` or
+    `a + b + 2n ≤ L`; the mirror image of the latter has `a' + b' ≥ L`).  So requiring these makes
+    every inverted repeat with disjoint arms found exactly once; together with the forward strand
+    (`a < b`) every repeat pair is found once. -/
+def requiredC (selfAlign complement : Bool) (tlen a b : Nat) : Bool :=
+  !selfAlign || (if complement then decide (tlen ≤ a + b) else decide (a < b))
+
+theorem requiredC_false (selfAlign : Bool) (tlen a b : Nat) :
+    requiredC selfAlign false tlen a b = required selfAlign a b := rfl
+
 /-! ### executable checker: all ε-matches by a scan along every diagonal
 
 Letters are first coded once (`0` = invalid, `digit + 1` otherwise); along a diagonal the
@@ -108,17 +126,17 @@ def allMatches (lk : Lookup) (t q : List UInt8) (n e : Nat) : List (Nat × Nat) 
   let qc := codes lk q
   (diagonalStarts tc.size qc.size).flatMap fun s => matchesOnDiagonal tc qc n e s.1 s.2
 
-/-- `(number of required ε-matches, those that no hit covers)`.  Hits are bucketed by their
-    diagonal; a match on diagonal `d` can only be covered by a hit whose diagonal is one of
-    `d … d + tubeWidth - 1`. -/
-def uncovered (lk : Lookup) (t q : List UInt8) (n e tubeWidth : Nat) (selfAlign : Bool)
+/-- `(number of required ε-matches, those that no hit covers)` for the requirement `req`.  Hits are
+    bucketed by their diagonal; a match on diagonal `d` can only be covered by a hit whose diagonal
+    is one of `d … d + tubeWidth - 1`. -/
+def uncoveredBy (lk : Lookup) (t q : List UInt8) (n e tubeWidth : Nat) (req : Nat → Nat → Bool)
     (hits : List Hit) : Nat × List (Nat × Nat) :=
   let tc := codes lk t
   let qc := codes lk q
   let buckets : Std.HashMap Int (List Hit) :=
     hits.foldl (fun m h => m.insert h.diagonal (h :: m.getD h.diagonal [])) {}
   let r := (diagonalStarts tc.size qc.size).foldl (fun (acc : Nat × List (List (Nat × Nat))) s =>
-    let ms := (matchesOnDiagonal tc qc n e s.1 s.2).filter fun m => required selfAlign m.1 m.2
+    let ms := (matchesOnDiagonal tc qc n e s.1 s.2).filter fun m => req m.1 m.2
     if ms.isEmpty then acc
     else
       let d : Int := (s.1 : Int) - s.2
@@ -126,5 +144,15 @@ def uncovered (lk : Lookup) (t q : List UInt8) (n e tubeWidth : Nat) (selfAlign 
       let unc := ms.filter fun m => !(hs.any fun h => covers tubeWidth n h m.1 m.2)
       (acc.1 + ms.length, if unc.isEmpty then acc.2 else unc :: acc.2)) (0, [])
   (r.1, r.2.reverse.flatten)
+
+/-- the checker of the forward strand (`required`) -/
+def uncovered (lk : Lookup) (t q : List UInt8) (n e tubeWidth : Nat) (selfAlign : Bool)
+    (hits : List Hit) : Nat × List (Nat × Nat) :=
+  uncoveredBy lk t q n e tubeWidth (required selfAlign) hits
+
+/-- the checker of either strand (`requiredC`); this is what the driver evaluates -/
+def uncoveredC (lk : Lookup) (t q : List UInt8) (n e tubeWidth : Nat) (selfAlign complement : Bool)
+    (hits : List Hit) : Nat × List (Nat × Nat) :=
+  uncoveredBy lk t q n e tubeWidth (requiredC selfAlign complement t.length) hits
 
 end Biogo.Spec.Filter
